@@ -692,12 +692,12 @@ def struct_audit_cases(rng):
     cs = []
     def add(l, r, m, *tags):
         cs.append(mk(l, r, m, ['audit'] + list(tags)))
-    def both(f, entries, *tags, ext=(True, True), ap=0):
+    def both(f, entries, *tags, ext=(True, True), ap=0, wd=True):
         l, r = caps_pair([f, W.IPV4], lmode=ap, rmode=ap, ext=ext)
         nh = None if f in (W.IPV4_FS, W.IPV6_FS, W.IPV4_FSVPN, W.IPV6_FSVPN) else (NH4 if (f >> 16) == 1 else NH6)
         if f == W.EVPN: nh = NH4
         add(l, r, ['reach', f, nh, A0, [['x', entries]]], *tags)
-        add(l, r, ['unreach', f, [['x', entries]]], *tags)
+        if wd: add(l, r, ['unreach', f, [['x', entries]]], *tags)
     FS = (W.IPV4_FS, W.IPV6_FS, W.IPV4_FSVPN, W.IPV6_FSVPN)
     for f in FS:
         v6 = 1 if f in (W.IPV6_FS, W.IPV6_FSVPN) else 0
@@ -762,14 +762,16 @@ def struct_audit_cases(rng):
         for i in range(0, 42):
             l, r = caps_pair([W.LS, W.IPV4])
             es = [['rawbulk', W.LS, kind, 1, i]]
-            add(l, r, ['reach', W.LS, NH4, A0, es], 'ls_every_nlri_type')
-            add(l, r, ['unreach', W.LS, es], 'ls_every_nlri_type')
+            # (LS NLRI are modelled as values now -- ls_struct_every_type below; the octets-in path keeps every
+            # shape once, alternating announce / withdraw)
+            if i % 2 == 0: add(l, r, ['reach', W.LS, NH4, A0, es], 'ls_every_nlri_type')
+            else: add(l, r, ['unreach', W.LS, es], 'ls_every_nlri_type')
         l, r = caps_pair([W.LS, W.IPV4], lmode=3, rmode=3, ext=(False, False))
         add(l, r, ['reach', W.LS, NH6, A0, [['rawbulk', W.LS, kind, 60, 100]]], 'ls_every_nlri_type')
     # BGP-LS as values: every NLRI type x every descriptor, unknown TLV lengths 0 / 1 / 255 / 256, identifiers past 32 bits
     for kind in range(6):
         for i in range(0, 48):
-            both(W.LS, [[0, ls_struct(kind, i)]], 'ls_struct_every_type')
+            both(W.LS, [[0, ls_struct(kind, i)]], 'ls_struct_every_type', wd=(i % 3 == 0))
         both(W.LS, [[j + 1, ls_struct(kind, j)] for j in range(24)], 'ls_struct_every_type', ap=3, ext=(False, False))
     # MUP: every route type x address family, prefix length / TEID length edges, optional source address
     for f in (W.IPV4_MUP, W.IPV6_MUP):
